@@ -158,6 +158,10 @@ func RandGenBank(r *rand.Rand, o GBOpt, labelPrefix string) seqio.GenBank {
 	case 0:
 	case 1:
 		f.Definition = words(r, 3) + "\n" + words(r, 5)
+		if r.Intn(3) == 0 {
+			// a middle line that ends in blanks (they are text).
+			f.Definition = words(r, 2) + "\n" + words(r, 2) + "  \n" + words(r, 2)
+		}
 	case 2:
 		f.Definition = words(r, 14+r.Intn(10))
 	case 3:
@@ -242,6 +246,9 @@ func RandGenBank(r *rand.Rand, o GBOpt, labelPrefix string) seqio.GenBank {
 			cm += " \n" + words(r, 2) + "  \n" + words(r, 1+r.Intn(3))
 		}
 		f.Comments = append(f.Comments, cm)
+		if r.Intn(8) == 0 {
+			f.Comments = append(f.Comments, "") // a COMMENT line with nothing on it
+		}
 	}
 	for i, n := 0, r.Intn(3); i < n; i++ {
 		f.Extra = append(f.Extra, seqio.GenBankExtraField([]string{"PRIMARY", "PROJECT", "SEGMENT", "BASE"}[r.Intn(4)], words(r, r.Intn(5))))
